@@ -10,6 +10,7 @@ exception class and OPC constrains the state.
 """
 from pyvc.contracts import contract
 from pyvc.vocab import (forall, implies, ubig, sdecode, pow2, items_of, str_keys_same, strint_keys_same,
+                        is_bytes_or_absent, is_bool_or_absent, list_len_at,
                         take_top, put_all, all_nonempty, AnyError, sha256, shake256, fresh_bytes, ghost)
 from tapescript.errors import ScriptExecutionError
 from tapescript.functions import (int_to_bytes, bytes_to_int, bytes_to_bool, not_bytes, bytes_to_float,
@@ -24,8 +25,18 @@ def clean(cache):
     return 'returned' not in cache
 
 
+def sigfields_ok(cache):
+    """valid_cache: the embedder's message parts are byte strings"""
+    return [(f'sigfield{i}.bytes', is_bytes_or_absent(cache, f'sigfield{i}')) for i in range(1, 9)]
+
+
+def flags_typed(tape):
+    """valid configuration: the integer flags 0..10 hold booleans"""
+    return [(f'flag{i}.bool', is_bool_or_absent(tape.flags, i)) for i in range(0, 11)]
+
+
 def vm_ok(tape, stack, cache):
-    return tape_ok(tape) + stack_ok(stack) + [('clean', clean(cache))]
+    return tape_ok(tape) + stack_ok(stack) + [('clean', clean(cache))] + sigfields_ok(cache) + flags_typed(tape)
 
 
 def opc_post(old, tape, stack, cache, raised):
@@ -34,14 +45,19 @@ def opc_post(old, tape, stack, cache, raised):
         ('pointer.monotone', tape.pointer >= old.tape.pointer),
         # C01: a pending RETURN implies this tape has ended (and only on a normal exit)
         ('returned-protocol', clean(cache) or (raised is None and tape.pointer == len(tape.data))),
-        # C08 (strict form, obligation only: OP_RETURN itself writes the str key 'returned')
-        ('!ks-frame', str_keys_same(old.cache, cache)),
-        # C08 (form every op meets and dispatch may assume): str keys other than 'returned' untouched
-        ('ks-frame-but-returned', ks_same_but_returned(old.cache, cache)),
+        # C08 'when no plugin or contract is installed' -- strict form, obligation only (OP_RETURN itself
+        # writes the str key 'returned')
+        ('!ks-frame', implies(no_plugins_at_all(tape), str_keys_same(old.cache, cache))),
+        # C08, the form every op meets and dispatch may assume: str keys other than 'returned' untouched
+        ('ks-frame-but-returned', implies(no_plugins_at_all(tape), ks_same_but_returned(old.cache, cache))),
         # C09: no instruction changes a str / int flag (the two flag instructions: see their contracts)
         ('flags-frame', strint_keys_same(old.tape.flags, tape.flags)),
         ('callstack.monotone', tape.callstack_count >= old.tape.callstack_count),
     ]
+
+
+def no_plugins_at_all(tape):
+    return list_len_at(tape.plugins, 'signature_extensions') == 0 and list_len_at(tape.plugins, 'check_template') == 0
 
 
 def ks_same_but_returned(c0, c1):
@@ -215,6 +231,7 @@ def push_inv(items, stack, i, loop_old):
         ('stack.len', len(stack.deque) == len(s0) + i),
         ('stack.below', forall(0, len(s0), lambda j: stack.deque[j] == s0[j])),
         ('stack.new', forall(len(s0), len(s0) + i, lambda j: stack.deque[j] == items[j - len(s0)])),
+        ('stack.new2', forall(0, i, lambda j: items[j] == stack.deque[len(s0) + j])),   # same fact, other trigger
     ]
 
 
